@@ -236,7 +236,32 @@ DoInterpScaled(o, name, n, k) ==
      OkV(VInt(IntNeg(r.val), IF IntMag(r.val) = <<>> THEN <<>> ELSE IntMag(r.val) \o Zeros(k)))
   ELSE Unconstrained
 
-CodecOps == {"newval", "setprop", "interp", "readtok", "peektok", "newscaled", "interpscaled"}
+\* The attributes of a Dtype object: Dtype(name, n) -> <<index of the canonical name in DtypeNameList, length,
+\* bitlength, bits_per_item, is_signed, variable_length, code of the return type>>
+DtypeNameList == <<"uint", "int", "uintbe", "intbe", "uintle", "intle", "float", "floatle", "bfloat", "bfloatle", "hex", "oct",
+                   "bin", "bytes", "bool", "bits", "pad", "ue", "se", "uie", "sie", "p3binary", "p4binary", "e4m3mxfp",
+                   "e5m2mxfp", "e3m2mxfp", "e2m3mxfp", "e2m1mxfp", "e8m0mxfp", "mxint">>
+NameIndex(c) == CHOOSE i \in 1..Len(DtypeNameList) : DtypeNameList[i] = c
+RetTypeCode(c) ==   \* 0 int, 1 float, 2 str, 3 bytes, 4 bool, 5 Bits
+  CASE c \in IntNames \cup GolombNames -> 0
+    [] c \in FloatNames \cup BFloatNames \cup AllMiniNames -> 1
+    [] c \in TextNames -> 2 [] c = "bytes" -> 3 [] c = "bool" -> 4 [] OTHER -> 5
+DtypeSigned(c) == c \in SignedNames \cup FloatNames \cup BFloatNames \cup {"se", "sie"} \cup (AllMiniNames \ {"e8m0mxfp"})
+OptSmall(i) == IF IsNone(i) THEN VNone ELSE VSmall(i)
+DoDtypeInfo(name, n) ==
+  LET c == Canon(name)
+      len == IF IsNone(n) THEN DefaultLen(c) ELSE n IN
+  IF c = "pad" THEN Unconstrained                       \* has no return type
+  ELSE IF c \in GolombNames THEN
+     (IF ~IsNone(n) THEN Raises({"ValueError"})
+      ELSE Ok(<<VSmall(NameIndex(c)), VNone, VNone, VSmall(1), VBool(DtypeSigned(c)), VBool(TRUE), VSmall(0)>>,
+              [i \in 1..7 |-> ""], NoUpd))
+  \* (a Dtype *object* of an integer type may have length 0; no value can be built with it - C15)
+  ELSE IF ~IsNone(n) /\ ~(LenAllowed(c, n) \/ (c \in IntNames /\ n = 0)) THEN Raises({"ValueError"})
+  ELSE Ok(<<VSmall(NameIndex(c)), OptSmall(len), OptSmall(IF IsNone(len) THEN NoneI ELSE len * Unit(c)), VSmall(Unit(c)),
+            VBool(DtypeSigned(c)), VBool(FALSE), VSmall(RetTypeCode(c))>>, [i \in 1..7 |-> ""], NoUpd)
+
+CodecOps == {"newval", "setprop", "interp", "readtok", "peektok", "newscaled", "interpscaled", "dtypeinfo"}
 CodecStep(objs, opts, call) ==
   LET op == call.op
       o == objs[call.t] IN
@@ -247,4 +272,5 @@ CodecStep(objs, opts, call) ==
     [] op = "peektok" -> DoReadTok(call.t, o, opts, call.sa[1], call.ia[1], FALSE)
     [] op = "newscaled" -> DoNewScaled(opts, call.sa[1], call.ia[1], call.ia[2], call.va[1])
     [] op = "interpscaled" -> DoInterpScaled(o, call.sa[1], call.ia[1], call.ia[2])
+    [] op = "dtypeinfo" -> DoDtypeInfo(call.sa[1], call.ia[1])
 =============================================================================
